@@ -68,17 +68,18 @@ class C11(Engine):
             budget[0] -= 1
             r = rng.random()
             if r < 0.34 and depth < 4:
-                nk = rng.choice((1, 1, 2, 3))
+                nk = rng.choice((0, 1, 1, 1, 2, 3))  # 0: a pure overlay scope, as aliases enter it
                 ks = rng.sample(KEYS, nk)
                 vals = {}
                 for k in ks:
                     uniq[0] += 1
                     vals[k] = MASK if rng.random() < 0.25 else self._val(k, tid, uniq[0])
                 overlay = None
-                if rng.random() < 0.25:
-                    ok = rng.choice(KEYS)
-                    uniq[0] += 1
-                    overlay = {ok: MASK if rng.random() < 0.3 else self._val(ok, tid, uniq[0])}
+                if nk == 0 or rng.random() < 0.25:
+                    overlay = {}
+                    for ok in rng.sample(KEYS, rng.choice((1, 1, 2))):
+                        uniq[0] += 1
+                        overlay[ok] = MASK if rng.random() < 0.35 else self._val(ok, tid, uniq[0])
                 ops.append({"op": "swap", "vals": vals, "overlay": overlay, "how": rng.choice(("pos", "kw", "mixed")), "exit": rng.choice(("normal", "normal", "raise")), "body": self.gen_ops(rng, tid, depth + 1, budget, uniq)})
             elif r < 0.62:
                 ops.append({"op": "probe", "key": rng.choice(KEYS + (f"P{tid}",))})
@@ -304,7 +305,7 @@ class C11(Engine):
                                 ovl["__overlay__"] = True
                                 state["stack"].append(ovl)
                             in_scope_threads.add(state["tid"])
-                            for key in vals:
+                            for key in list(vals) + [k2 for k2 in (op["overlay"] or ()) if k2 not in vals]:
                                 probe(state, key, w + ":entered")
                             run_ops(op["body"], state, w)
                             if op["exit"] == "raise":
